@@ -518,6 +518,9 @@ func (ev *tplEval) evalList(fc *fctx, e ast.Expr) (Sketch, bool) {
 							if el, ok := ev.listFromFunc(fi); ok {
 								elems = append(elems, el)
 							}
+						} else if el, ok := ev.evalList(fc, call); ok {
+							// a library function passing a list through (slices.Repeat, slices.Compact, …)
+							elems = append(elems, el)
 						}
 					}
 				}
